@@ -50,7 +50,9 @@ ASSUMPTIONS = ["quantities whose value is a non-array object are compared by typ
                "the in-place F+H fast path of curvature_reg_matrix (buffer reused, cache entry dropped) is legitimate: later reads recompute F"]
 QUICK_JOBS = 12
 MIN_MONITORS = {"*": {"input_fingerprint": 200, "cache.hit_unchanged": 200, "order.matches_baseline": 200, "derived.consistent": 100, "derived.matches_rebuild": 100,
-                      "defaults.unchanged": 3, "deterministic": 10, "deterministic.simulator_seed": 4, "sweep.apply_over_sampling_keeps_own_scheme": 2}}
+                      "defaults.unchanged": 3, "deterministic": 10, "deterministic.simulator_seed": 4, "sweep.apply_over_sampling_keeps_own_scheme": 2,
+                      "param.order_independent": 200, "param.repeat_equal": 200, "param.grid_argument_untouched": 20, "param.arguments_untouched": 10,
+                      "param.earlier_results_keep_their_value": 10}}
 SKIP_NAMES = ("plot", "output", "fits", "hdu", "visual", "json", "pickle", "run_time", "profile", "logger", "instance_flatten", "instance_unflatten")
 SKIP_QUANT = {"reconstruction_noise_map_with_covariance", "reconstruction_noise_map", "reconstruction_noise_map_dict", "errors", "errors_with_covariance",
               "errors_dict", "T", "flat", "base", "ctypes", "data_ptr"}
@@ -65,6 +67,8 @@ def plan(tier, seed):
     units += [{"kind": "sweep", "start": s, "stop": s + 2, "w": 2} for s in range(0, ns, 2)]
     nq = 12 if tier == "quick" else 640
     units += [{"kind": "determ", "start": s, "stop": s + 4, "w": 2} for s in range(0, nq, 4)]
+    npar = 12 if tier == "quick" else 480
+    units += [{"kind": "param", "start": s, "stop": s + 4, "w": 3} for s in range(0, npar, 4)]
     return units
 
 
@@ -158,6 +162,7 @@ def setup(ctx):
             return self._inv
 
     ctx.Fit = VerifFit
+    ctx.param_profiles = _profiles(aa)
 
 
 def teardown(ctx):
@@ -810,7 +815,185 @@ def run_determ(ctx, i):
     ctx.case("determ", i, nontrivial=True, cls=["determinism"], sample=lambda: {"determinism": i, "noise_seed": seed})
 
 
+# ----------------------------------------------------------------------------------------- queries that take arguments
+def _profiles(aa):
+    """Profile classes registered in config/base/grids.yaml (adaptive over sampling lists differ per class name)."""
+    def build(name):
+        class P:
+            def __init__(self, c, centre):
+                self.c = c
+                self.centre = centre
+
+            @aa.over_sample
+            @aa.grid_dec.to_array
+            def image(self, grid, *args, **kwargs):
+                g = np.asarray(grid)
+                r2 = (g[:, 0] - self.centre[0]) ** 2 + (g[:, 1] - self.centre[1]) ** 2
+                return self.c[0] * np.exp(-self.c[1] * r2) + self.c[2] * g[:, 0] * g[:, 1]
+
+        P.__name__ = P.__qualname__ = name
+        return P
+    return {n: build(n) for n in ("VerifC09Ones", "VerifC09Adapt", "VerifC09Adapt2")}
+
+
+def param_world(ctx, i):
+    """One of several bit-identical worlds (same seed -> equal inputs, separate objects) and the list of calls made on it."""
+    aa = ctx.aa
+    r = gen.rng_for(ctx.seed, NO, 7, i)
+    case = gen_aa.imaging_case(aa, r, kshapes=(1, 3), max_unmasked=24)
+    mask, m = case["mask"], case["m"]
+    n = int((~m).sum())
+    ds = case["ds"]
+    osamp = ds.grids.pixelization.over_sampler
+    kind = "rect" if i % 2 == 0 else "del"
+    adapt = aa.Array2D(values=r.random(n) + 0.05, mask=mask)
+    mp, d = gen_aa.mapper(aa, r, mask, osamp, kind, aa.reg.Constant(coefficient=1.0), adapt_data=adapt)
+    P = int(mp.params)
+    vals = [r.random(P) + 0.1, r.normal(size=P)]
+    mv = aa.MapperValued(mapper=mp, values=vals[0].copy())
+    inv = aa.Inversion(dataset=ds, linear_obj_list=[mp], settings=aa.SettingsInversion(use_w_tilde=False, use_positive_only_solver=False))
+    g0 = aa.Grid2D.from_mask(mask=mask)                                  # carries no over sampling of its own
+    ps = tuple(float(v) for v in mask.pixel_scales)
+    g1 = aa.Grid2D.uniform(shape_native=(int(r.integers(3, 7)), int(r.integers(3, 7))), pixel_scales=ps)
+    prof = ctx.param_profiles
+    cen = [(float(r.normal() * ps[0]), float(r.normal() * ps[1])) for _ in range(3)]
+    pobj = [prof["VerifC09Adapt"]((1.0, 0.7, 0.1), cen[0]), prof["VerifC09Adapt2"]((0.5, 1.3, -0.2), cen[1]),
+            prof["VerifC09Adapt"]((2.0, 0.2, 0.0), cen[2]), prof["VerifC09Ones"]((1.5, 0.9, 0.3), cen[0])]
+    sc = [float(x) for x in r.choice([0.0, 0.5, 1.0, 2.0, 3.5], size=3, replace=False)]
+    regs = [("AdaptiveBrightness(%g)" % s_, aa.reg.AdaptiveBrightness(inner_coefficient=0.7, outer_coefficient=1.9, signal_scale=s_)) for s_ in sc[:2]]
+    regs.append(("BrightnessZeroth(%g)" % sc[2], aa.reg.BrightnessZeroth(coefficient=0.6, signal_scale=sc[2])))
+    regs.append(("Constant", aa.reg.Constant(coefficient=1.3)))
+    if kind == "del":
+        regs.append(("AdaptiveBrightnessSplit(%g)" % sc[1], aa.reg.AdaptiveBrightnessSplit(inner_coefficient=0.4, outer_coefficient=2.5, signal_scale=sc[1])))
+        regs.append(("AdaptiveBrightnessSplitZeroth(%g,%g)" % (sc[0], sc[2]),
+                     aa.reg.AdaptiveBrightnessSplitZeroth(inner_coefficient=0.4, outer_coefficient=2.5, signal_scale=sc[0], zeroth_coefficient=0.3,
+                                                          zeroth_signal_scale=sc[2])))
+    arrs = [aa.Array2D(values=r.random(n), mask=mask), aa.Array2D(values=r.normal(size=n), mask=mask)]
+    ext = tuple(float(v) for v in mp.source_plane_mesh_grid.geometry.extent)
+    ext2 = (ext[0] - 0.1, ext[1] + 0.3, ext[2] - 0.2, ext[3] + 0.05)
+    idx_lists = [[0], [int(x) for x in r.choice(P, size=min(P, 3), replace=False)]]
+    coord = (float(r.normal()), float(r.normal()))
+    kshape = (3, 3)
+    calls = []
+
+    def add(label, fn):
+        calls.append((label, fn))
+    for s_ in sc:
+        add("mapper.pixel_signals_from(%g)" % s_, lambda s_=s_: mp.pixel_signals_from(signal_scale=s_))
+    for nm, rg in regs:
+        add("reg.%s.regularization_matrix_from(mapper)" % nm, lambda rg=rg: rg.regularization_matrix_from(linear_obj=mp))
+        add("reg.%s.regularization_weights_from(mapper)" % nm, lambda rg=rg: rg.regularization_weights_from(linear_obj=mp))
+    for k_, il in enumerate(idx_lists):
+        add("mapper.pix_indexes_for_slim_indexes(#%d)" % k_, lambda il=il: mp.pix_indexes_for_slim_indexes(pix_indexes=list(il)))
+    for k_, a in enumerate(arrs):
+        add("mapper.mapped_to_source_from(#%d)" % k_, lambda a=a: mp.mapped_to_source_from(array=a))
+    for k_, v in enumerate(vals):
+        add("mapper.interpolated_array_from(values#%d,(5,4))" % k_, lambda v=v: mp.interpolated_array_from(values=v, shape_native=(5, 4)))
+        add("mapper.interpolated_array_from(values#%d,(3,6),extent)" % k_, lambda v=v: mp.interpolated_array_from(values=v, shape_native=(3, 6), extent=ext2))
+        add("mapper.extent_from(values#%d,0.5)" % k_, lambda v=v: mp.extent_from(values=v, zoom_percent=0.5))
+    add("mapper.extent_from()", lambda: mp.extent_from())
+    for tp, fn_ in ((1, False), (2, False), (2, True), (3, True)):
+        add("valued.max_pixel_list_from(%d,%s)" % (tp, fn_), lambda tp=tp, fn_=fn_: mv.max_pixel_list_from(total_pixels=tp, filter_neighbors=fn_))
+    add("valued.interpolated_array_from((4,4))", lambda: mv.interpolated_array_from(shape_native=(4, 4)))
+    add("valued.interpolated_array_from((6,3),extent)", lambda: mv.interpolated_array_from(shape_native=(6, 3), extent=ext2))
+    add("valued.magnification_via_mesh_from()", lambda: mv.magnification_via_mesh_from())
+    add("valued.magnification_via_interpolation_from((7,7))", lambda: mv.magnification_via_interpolation_from(shape_native=(7, 7)))
+    add("valued.magnification_via_interpolation_from((5,9),extent)", lambda: mv.magnification_via_interpolation_from(shape_native=(5, 9), extent=ext2))
+    add("valued.mapped_reconstructed_image_from()", lambda: mv.mapped_reconstructed_image_from())
+    add("inversion.regularization_weights_from(0)", lambda: inv.regularization_weights_from(index=0))
+    add("inversion.cls_list_from(AbstractMapper)", lambda: [type(x).__name__ for x in inv.cls_list_from(cls=aa.AbstractMapper)])
+    add("inversion.param_range_list_from(AbstractMapper)", lambda: inv.param_range_list_from(cls=aa.AbstractMapper))
+    add("inversion.total(AbstractMapper)", lambda: inv.total(cls=aa.AbstractMapper))
+    for k_, v in enumerate(vals):
+        add("inversion.source_quantity_dict_from(#%d)" % k_, lambda v=v: list(inv.source_quantity_dict_from(source_quantity=v).values()))
+    for gname, g in (("from_mask", g0), ("uniform", g1)):
+        for k_, po in enumerate(pobj):
+            add("profile#%d(%s).image(Grid2D.%s)" % (k_, type(po).__name__, gname), lambda po=po, g=g: po.image(g))
+        add("Grid2D.%s.squared_distances_to_coordinate_from" % gname, lambda g=g: g.squared_distances_to_coordinate_from(coordinate=coord))
+        add("Grid2D.%s.distances_to_coordinate_from" % gname, lambda g=g: g.distances_to_coordinate_from(coordinate=coord))
+        add("Grid2D.%s.grid_2d_radial_projected_from" % gname, lambda g=g: g.grid_2d_radial_projected_from(centre=coord, angle=30.0))
+        add("Grid2D.%s.padded_grid_from" % gname, lambda g=g: g.padded_grid_from(kernel_shape_native=kshape))
+    for sub in (1, 2, 3):
+        add("OverSamplingUniform(%d).over_sampler_from(mask).binned_array_2d_from" % sub,
+            lambda sub=sub: aa.OverSamplingUniform(sub_size=sub).over_sampler_from(mask=mask).over_sampled_grid)
+    add("OverSamplingUniform.from_radial_bins(Grid2D.from_mask)", lambda: aa.OverSamplingUniform.from_radial_bins(
+        grid=g0, sub_size_list=[3, 2, 1], radial_list=[1.5 * min(ps), 3.0 * min(ps)], centre_list=[cen[0]]).sub_size)
+    add("mask.derive_mask.blurring_from((3,3))", lambda: mask.derive_mask.blurring_from(kernel_shape_native=kshape))
+    for b in (0, 1, 2):
+        add("Array2D.zoomed_around_mask(%d)" % b, lambda b=b: arrs[0].zoomed_around_mask(buffer=b))
+    add("Array2D.resized_from", lambda: arrs[1].resized_from(new_shape=(m.shape[0] + 2, m.shape[1] + 1)))
+    add("Array2D.binned_across_rows", lambda: arrs[1].binned_across_rows)
+    watched = {"Grid2D.from_mask": g0, "Grid2D.uniform": g1}
+    owned = {"values#0": vals[0], "values#1": vals[1], "array#0": arrs[0], "array#1": arrs[1], "adapt_data": adapt}
+    return dict(calls=calls, watched=watched, owned=owned, desc={"mesh": kind, "unmasked": n, "mesh_pixels": P, "signal_scales": sc,
+                                                                  "profile_centres": cen, "mask": m})
+
+
+def run_param(ctx, i):
+    """Queries that take arguments (signal scales, shapes, extents, index lists, arrays, grids handed to decorated profile
+    functions): the same calls are made on bit-identical worlds in a seeded order, in the reverse order and twice over. Every call
+    must return the same value in every world, the arguments handed in and the results handed out earlier must stay as they were,
+    and the grids passed to the profile functions must still report the over sampling they were built with."""
+    if not ctx.begin("param:%d" % i):
+        return
+    ctx.tracker.clear()
+    cachetrace.set_context(param_world=i)
+    r = gen.rng_for(ctx.seed, NO, 8, i)
+    order = None
+    tables, descs = [], None
+    for wn in range(3):
+        W = param_world(ctx, i)
+        calls = W["calls"]
+        if order is None:
+            order = [int(x) for x in r.permutation(len(calls))]
+        seq = order if wn == 0 else (order[::-1] if wn == 1 else order + order)
+        before = {k: (g.over_sampling, value_fp(np.asarray(g._array))) for k, g in W["watched"].items()}
+        own_fp = {k: value_fp(v) for k, v in W["owned"].items()}
+        tab, kept = {}, []
+        for pos, ci in enumerate(seq):
+            label, fn = calls[ci]
+            try:
+                v = fn()
+            except Exception as e:
+                v = "EXC:" + type(e).__name__
+            fpv = value_fp(v)
+            kept.append((label, v, fpv, pos))
+            if label in tab and tab[label][0] != fpv:
+                ctx.monitors["param.repeat_equal"] += 1
+                ctx.fire("param.repeat_equal", call=label, first=tab[label][0][:80], again=fpv[:80], world=W["desc"])
+            elif label in tab:
+                ctx.monitors["param.repeat_equal"] += 1
+            tab.setdefault(label, (fpv, pos))
+        # results handed out earlier are not edited by later calls
+        changed = [(label, pos) for (label, v, fpv, pos) in kept if value_fp(v) != fpv]
+        ctx.check(not changed, "param.earlier_results_keep_their_value", changed=changed[:6], order=[calls[c][0] for c in seq][:80], world=W["desc"])
+        ch_in = [k for k, v in W["owned"].items() if value_fp(v) != own_fp[k]]
+        ctx.check(not ch_in, "param.arguments_untouched", changed=ch_in, world=W["desc"])
+        for k, g in W["watched"].items():
+            ctx.check(g.over_sampling is before[k][0] and value_fp(np.asarray(g._array)) == before[k][1], "param.grid_argument_untouched", grid=k,
+                      over_sampling_before=repr(before[k][0]), over_sampling_after=repr(g.over_sampling)[:120], world=W["desc"])
+        tables.append(tab)
+        descs = W["desc"]
+        labels = [c[0] for c in calls]
+    for label in labels:
+        fps = [t[label][0] for t in tables if label in t]
+        ctx.monitors["param.order_independent"] += 1
+        if len(set(fps)) != 1:
+            ctx.fire("param.order_independent", call=label, value_in_seeded_order=fps[0][:80], value_in_reverse_order=fps[1][:80],
+                     position_in_seeded_order=tables[0][label][1], position_in_reverse_order=tables[1][label][1],
+                     calls_before_it_in_seeded_order=[labels[c] for c in order[:tables[0][label][1]]][:40], world=descs)
+    nexc = sum(1 for t in tables[:1] for v in t.values() if v[0].startswith("'EXC:") or v[0].startswith("EXC:"))
+    ctx.reach["param_calls"] += len(labels)
+    ctx.reach["param_calls_raising"] += nexc
+    ctx.case("param", i, nontrivial=True, cls=["parametrised_queries", "mesh:" + descs["mesh"]],
+             sample=lambda: {"parametrised_queries": len(labels), "raising": nexc, "mesh": descs["mesh"], "first_calls": [labels[c] for c in order[:8]]})
+
+
 def run_unit(ctx, u):
+    if u["kind"] == "param":
+        for i in range(u["start"], u["stop"]):
+            run_param(ctx, i)
+        return
     if u["kind"] == "hist":
         run_hist(ctx, u)
     elif u["kind"] == "derive":
